@@ -684,8 +684,21 @@ class Interp:
         raise _Return(err(("term", "From::from", (self.payload(v, "Err", "0"),))))
 
     def _await_value(self, v, e):
-        if v[0] == "term" and v[1] == "async-call":
-            return v[2][0]
+        """Awaiting an `async` block / the future of a local `async fn` runs its body (inlined); anything else stays symbolic."""
+        if v[0] == "closure":
+            d = v[1]
+            t = self.fx.thir.get(d)
+            # `#[instrument] async fn`: the outer coroutine only wraps the user's one (its first nested closure) in a span
+            for _ in range(2):
+                if t is not None and "__tracing_instrument_future" in T.expr_str(T.norm(t["body"]))[:4000] and (d + "::{closure#0}") in self.fx.thir:
+                    d = d + "::{closure#0}"
+                    t = self.fx.thir[d]
+            if t is not None and self._may_inline(d, t) and getattr(self, "_inline_depth", 0) < self.max_depth:
+                self._inline_depth = getattr(self, "_inline_depth", 0) + 1
+                try:
+                    return self.run_inline(t, [], dict(v[2]), 0, closure=True)
+                finally:
+                    self._inline_depth -= 1
         return ("await", v)
 
     # -- calls ------------------------------------------------------------------------------------
